@@ -1254,6 +1254,210 @@ theorem perPartExpected_some (labels : List L) (n : Nat) (o : Output) (parts : L
       rw [h2 i, mem_setUpdate, allNulls_cons, List.mem_append]
       tauto
 
+/-! ### the per-spec branch of `ModelSpecs.get_model_matrix`: two passes over one shared set -/
+
+theorem perPartExpected_final (labels : List L) (n : Nat) (o : Output) (parts : List (Part ρ))
+    (s : DropSet) :
+    (perPartExpected labels n o parts (some s)).2 = some (setUpdate s (allNulls parts)) := by
+  induction parts generalizing s with
+  | nil => simp [perPartExpected, allNulls, setUpdate]
+  | cons p r ih =>
+    unfold perPartExpected
+    simp only [callerRows, carry, ih, allNulls_cons, setUpdate_append]
+
+theorem partNulls_subset_allNulls (parts : List (Part ρ)) (p : Part ρ) (hp : p ∈ parts) :
+    ∀ i ∈ partNulls p, i ∈ allNulls parts := by
+  intro i hi
+  unfold partNulls at hi
+  unfold allNulls
+  simp only [List.mem_flatMap] at hi ⊢
+  obtain ⟨f, hf, hif⟩ := hi
+  exact ⟨f, ⟨p, hp, hf⟩, hif⟩
+
+/-- one pass over the parts during which no null check changes the set: every part is built with
+that set -/
+theorem perPartCalls_stable [DecidableEq L] (labels : List L) (n : Nat) (pol : Policy) (o : Output)
+    (parts : List (Part ρ)) (s : DropSet) (hl : labels.length = n) (hwf : WF n parts)
+    (hs : s.Nodup) (hr : ∀ i ∈ s, i < n)
+    (hst : ∀ p ∈ parts, evalFactors current pol p.factors s = .ok s) :
+    perPartCalls current labels n pol o parts (some s) =
+      .ok (parts.map (expectedMatrix labels (keptPositions n s) o), some s) := by
+  induction parts with
+  | nil => rfl
+  | cons p r ih =>
+    have hwfp : WF n [p] := by
+      intro q hq
+      simp only [List.mem_singleton] at hq
+      subst hq
+      exact hwf q (by simp)
+    have hwfr : WF n r := fun q hq => hwf q (by simp [hq])
+    have hev : evalFactors current pol ([p].flatMap (·.factors)) (callerRows (some s)) = .ok s := by
+      simpa [callerRows] using hst p (by simp)
+    have hg := getModelMatrix_of_eval labels n pol o [p] (some s) s hl hwfp hev hs hr
+    unfold perPartCalls
+    rw [hg]
+    simp only [carry, ih hwfr (fun q hq => hst q (by simp [hq]))]
+    rfl
+
+/-- RAISE: a pass stops at the first part that has a null -/
+theorem perPartCalls_raise_nulls [DecidableEq L] (labels : List L) (n : Nat) (o : Output)
+    (parts : List (Part ρ)) (s : DropSet) (hl : labels.length = n) (hwf : WF n parts)
+    (hs : s.Nodup) (hr : ∀ i ∈ s, i < n) (hne : allNulls parts ≠ []) :
+    perPartCalls current labels n .raise o parts (some s) = .error .nullsPresent := by
+  induction parts with
+  | nil => exact absurd rfl hne
+  | cons p r ih =>
+    have hwfp : WF n [p] := by
+      intro q hq
+      simp only [List.mem_singleton] at hq
+      subst hq
+      exact hwf q (by simp)
+    have hwfr : WF n r := fun q hq => hwf q (by simp [hq])
+    have hchk : ∀ f ∈ [p].flatMap (·.factors), ∃ ns, findNulls current f.value = .ok ns := by
+      intro f hf
+      simp only [List.flatMap_cons, List.flatMap_nil, List.append_nil] at hf
+      obtain ⟨ns, hns, _⟩ := findNulls_factorOK n f (hwf p (by simp) f hf)
+      exact ⟨ns, hns⟩
+    have hev := evalFactors_raise ([p].flatMap (·.factors)) s hchk
+    have hpn : ([p].flatMap (·.factors)).flatMap nullsOf = partNulls p := by simp [partNulls]
+    rw [hpn] at hev
+    by_cases hp0 : partNulls p = []
+    · rw [if_pos hp0] at hev
+      have hg := getModelMatrix_of_eval labels n .raise o [p] (some s) s hl hwfp
+        (by simpa [callerRows] using hev) hs hr
+      have hne' : allNulls r ≠ [] := by
+        intro h
+        apply hne
+        rw [allNulls_cons, hp0, h]
+        rfl
+      unfold perPartCalls
+      rw [hg]
+      simp only [carry, ih hwfr hne']
+    · rw [if_neg hp0] at hev
+      unfold perPartCalls getModelMatrix
+      simp only [initialSet, hev]
+
+theorem callerRows_some (x : DropSet) : callerRows (some x) = x := rfl
+
+/-- the per-spec branch when the first pass leaves the set as it was: there is no second pass -/
+theorem call_perSpec_stable [DecidableEq L] (labels : List L) (n : Nat) (pol : Policy) (o : Output)
+    (parts : List (Part ρ)) (c : CallRec) (hl : labels.length = n) (hwf : WF n parts)
+    (hc : CallerOK n c.caller) (h0 : oneCall c = false)
+    (hst : ∀ p ∈ parts, evalFactors current pol p.factors (callerRows c.caller) = .ok (callerRows c.caller)) :
+    call current labels n pol o parts c =
+      .ok ⟨parts.map (expectedMatrix labels (keptPositions n (callerRows c.caller)) o), c.caller⟩ := by
+  obtain ⟨hcn, hcr⟩ := callerRows_ok n c.caller hc
+  unfold call
+  rw [route_current, h0]
+  simp only [Bool.false_eq_true, if_false, current, if_true, initialSet_eq]
+  have := perPartCalls_stable labels n pol o parts (callerRows c.caller) hl hwf hcn hcr hst
+  unfold current at this
+  rw [this]
+  simp only [callerRows_some, bne_self_eq_false, Bool.false_eq_true, if_false]
+  cases c.caller <;> rfl
+
+/-- The per-spec branch under DROP: both passes together give every part the rows that are in
+neither the caller's set nor null in ANY part, and leave caller ∪ all nulls in the shared set. -/
+theorem call_perSpec_drop [DecidableEq L] (labels : List L) (n : Nat) (o : Output)
+    (parts : List (Part ρ)) (c : CallRec) (hl : labels.length = n) (hwf : WF n parts)
+    (hc : CallerOK n c.caller) (h0 : oneCall c = false) :
+    call current labels n .drop o parts c =
+      .ok ⟨parts.map (expectedMatrix labels
+              (keptPositions n (callerRows c.caller ++ allNulls parts)) o),
+           c.caller.map (fun _ => setUpdate (callerRows c.caller) (allNulls parts))⟩ := by
+  obtain ⟨hcn, hcr⟩ := callerRows_ok n c.caller hc
+  have hchk : ∀ p ∈ parts, ∀ f ∈ p.factors, ∃ ns, findNulls current f.value = .ok ns := by
+    intro p hp f hf
+    obtain ⟨ns, hns, _⟩ := findNulls_factorOK n f (hwf p hp f hf)
+    exact ⟨ns, hns⟩
+  have hd1n := nodup_setUpdate (allNulls parts) (callerRows c.caller) hcn
+  have hd1r : ∀ i ∈ setUpdate (callerRows c.caller) (allNulls parts), i < n := by
+    intro i hi
+    rw [mem_setUpdate] at hi
+    rcases hi with hi | hi
+    · exact hcr i hi
+    · exact mem_allNulls_lt n parts hwf i hi
+  have hk : ∀ d, (∀ i, i ∈ d ↔ i ∈ callerRows c.caller ∨ i ∈ allNulls parts) →
+      keptPositions n d = keptPositions n (callerRows c.caller ++ allNulls parts) := by
+    intro d hd
+    exact keptPositions_congr n _ _ (fun i => by rw [hd i, List.mem_append])
+  -- with every null row already in the set, a pass changes nothing
+  have hsat : ∀ d : DropSet, (∀ i ∈ allNulls parts, i ∈ d) →
+      ∀ p ∈ parts, evalFactors current .drop p.factors d = .ok d := by
+    intro d hd p hp
+    rw [evalFactors_drop _ _ (hchk p hp)]
+    have : setUpdate d (p.factors.flatMap nullsOf) = d :=
+      setUpdate_of_subset _ d (fun i hi => hd i (partNulls_subset_allNulls parts p hp i hi))
+    rw [this]
+  by_cases hlen : (setUpdate (callerRows c.caller) (allNulls parts)).length = (callerRows c.caller).length
+  · -- nothing to add: one pass
+    have heq := setUpdate_eq_of_length _ _ hlen
+    have hsub := subset_of_setUpdate_eq _ _ heq
+    rw [call_perSpec_stable labels n .drop o parts c hl hwf hc h0 (hsat _ hsub), heq]
+    rw [hk (callerRows c.caller) (fun i => ⟨Or.inl, fun h => h.elim id (hsub i)⟩)]
+    cases c.caller <;> rfl
+  · -- the set grew during the first pass: all parts again, with the complete set
+    unfold call
+    rw [route_current, h0]
+    simp only [Bool.false_eq_true, if_false, current, if_true, initialSet_eq]
+    have h1 := perPartCalls_drop labels n o parts (some (callerRows c.caller)) hl hwf ⟨hcn, hcr⟩
+    have h1f := perPartExpected_final labels n o parts (callerRows c.caller)
+    have h2 := perPartCalls_stable labels n .drop o parts _ hl hwf hd1n hd1r
+      (hsat _ (fun i hi => (mem_setUpdate _ _ i).2 (Or.inr hi)))
+    unfold current at h1 h2
+    rw [h1]
+    rcases hpe : perPartExpected labels n o parts (some (callerRows c.caller)) with ⟨ms, dEnd⟩
+    rw [hpe] at h1f
+    simp only at h1f
+    subst h1f
+    have hne : ((setUpdate (callerRows c.caller) (allNulls parts)).length != (callerRows c.caller).length) = true := by
+      simpa using hlen
+    simp only [callerRows_some, hne, if_true, h2]
+    rw [hk _ (fun i => mem_setUpdate _ _ i)]
+    cases c.caller <;> rfl
+
+theorem partNulls_nil_of_allNulls_nil (parts : List (Part ρ)) (h : allNulls parts = [])
+    (p : Part ρ) (hp : p ∈ parts) : partNulls p = [] := by
+  rw [List.eq_nil_iff_forall_not_mem]
+  intro i hi
+  have := partNulls_subset_allNulls parts p hp i hi
+  rw [h] at this
+  cases this
+
+/-- The per-spec branch under RAISE -/
+theorem call_perSpec_raise [DecidableEq L] (labels : List L) (n : Nat) (o : Output)
+    (parts : List (Part ρ)) (c : CallRec) (hl : labels.length = n) (hwf : WF n parts)
+    (hc : CallerOK n c.caller) (h0 : oneCall c = false) :
+    call current labels n .raise o parts c =
+      if allNulls parts = [] then
+        .ok ⟨parts.map (expectedMatrix labels (keptPositions n (callerRows c.caller)) o), c.caller⟩
+      else .error .nullsPresent := by
+  obtain ⟨hcn, hcr⟩ := callerRows_ok n c.caller hc
+  by_cases hnull : allNulls parts = []
+  · rw [if_pos hnull]
+    apply call_perSpec_stable labels n .raise o parts c hl hwf hc h0
+    intro p hp
+    rw [evalFactors_raise _ _ (fun f hf => by
+      obtain ⟨ns, hns, _⟩ := findNulls_factorOK n f (hwf p hp f hf)
+      exact ⟨ns, hns⟩)]
+    have : p.factors.flatMap nullsOf = [] := partNulls_nil_of_allNulls_nil parts hnull p hp
+    rw [if_pos this]
+  · rw [if_neg hnull]
+    unfold call
+    rw [route_current, h0]
+    simp only [Bool.false_eq_true, if_false, current, if_true, initialSet_eq]
+    have := perPartCalls_raise_nulls labels n o parts (callerRows c.caller) hl hwf hcn hcr hnull
+    unfold current at this
+    rw [this]
+
+/-- The per-spec branch under IGNORE -/
+theorem call_perSpec_ignore [DecidableEq L] (labels : List L) (n : Nat) (o : Output)
+    (parts : List (Part ρ)) (c : CallRec) (hl : labels.length = n) (hwf : WF n parts)
+    (hc : CallerOK n c.caller) (h0 : oneCall c = false) :
+    call current labels n .ignore o parts c =
+      .ok ⟨parts.map (expectedMatrix labels (keptPositions n (callerRows c.caller)) o), c.caller⟩ :=
+  call_perSpec_stable labels n .ignore o parts c hl hwf hc h0 (fun _ _ => evalFactors_ignore _ _)
+
 /-! ### the legacy label-based drop -/
 
 theorem labelsAt_eq (labels : List L) (d : List Nat) (hd : ∀ i ∈ d, i < labels.length) :
